@@ -58,6 +58,22 @@ Theorem C10_cseg_decode_sound : forall dt nc g cx cy cz buf a,
 Proof. exact cseg_decode_sound. Qed.
 Print Assumptions C10_cseg_decode_sound.
 
+(* consequence: a byte string in which the format cannot read SOME voxel of
+   the chunk (table offset or values offset outside the file, an index word -
+   whatever its magnitude, 2^32-1 included - at or beyond the entries that
+   remain before the end of the file, ...) is never accepted, whatever the
+   other voxels look like *)
+Theorem C10_cseg_unreadable_voxel_rejected : forall dt nc g cx cy cz buf c z y x,
+  c < nc -> z < cz -> y < cy -> x < cx ->
+  spec_value dt buf cy cx (g_bx g) (g_by g) (g_bz g) c z y x = None ->
+  forall a, cseg_decode dt nc g cx cy cz buf <> Ok a.
+Proof.
+  intros dt nc g cx cy cz buf c z y x Hc Hz Hy Hx Hnone a Hok.
+  pose proof (cseg_decode_sound dt nc g cx cy cz buf a Hok c z y x Hc Hz Hy Hx) as E.
+  rewrite Hnone in E. discriminate E.
+Qed.
+Print Assumptions C10_cseg_unreadable_voxel_rejected.
+
 (* valid compressed_segmentation data (anything the encoder produces) is never
    rejected and decodes to the encoded chunk *)
 Theorem C10_cseg_valid_never_rejected : forall dt nc g a buf,
@@ -88,3 +104,18 @@ Example C10_total_example :
     [2; 0; 0; 0;  5; 0; 0; 0;  2; 0; 0; 0;  3; 0; 0; 0;  7; 0; 0; 0;
      2; 0; 0; 0;  3; 0; 0; 0;  9; 0; 0; 0] = Ok a /\ a_data a = [7; 9].
 Proof. split; [vm_compute; reflexivity|]. eexists. split; vm_compute; reflexivity. Qed.
+
+(* non-vacuity of C10_cseg_unreadable_voxel_rejected: a one-block file with a
+   32-bit block whose index words are 2^32-1 and 2^32-2 (a signed intermediate
+   would read them as -1 and -2 and index the three-entry table from its end):
+   the format reads no label there, and the package decoder refuses the file *)
+Example C10_example_wide_index :
+  let buf := bytes_of_words [1; 32 * 2 ^ 24 + 4; 2; 2 ^ 32 - 1; 2 ^ 32 - 2; 111; 222; 333] in
+  let g := {| g_bx := 2; g_by := 1; g_bz := 1 |} in
+  spec_value U32 buf 1 2 2 1 1 0 0 0 0 = None /\
+  cseg_decode U32 1 g 2 1 1 buf = FormatErr /\
+  (* the same file with indices 2 and 0 is accepted and reads 333, 111 *)
+  let ok := bytes_of_words [1; 32 * 2 ^ 24 + 4; 2; 2; 0; 111; 222; 333] in
+  spec_value U32 ok 1 2 2 1 1 0 0 0 0 = Some 333 /\
+  spec_value U32 ok 1 2 2 1 1 0 0 0 1 = Some 111.
+Proof. cbv zeta. repeat split; vm_compute; reflexivity. Qed.
